@@ -230,7 +230,7 @@ fn thread_level(tier: Tier, all: &[Shape], rep: &mut Report) -> (u64, u64, u64) 
             pick(&["hashjoin-inner", "hashjoin-left", "groupby", "agg-distinct", "sort", "backpressure", "unionall", "insert-select"]),
             2usize,
             2usize,
-            150u64,
+            60u64,
         ),
     };
     let graph = match tlc::load_graph() {
